@@ -66,6 +66,15 @@ Theorem C10_roundtrip_ssa_checker_partial : forall N t path, roundtrip_ssa_b N t
 Proof. exact roundtrip_ssa_b_sound. Qed.
 Print Assumptions C10_roundtrip_ssa_checker_partial.
 
+(* linear_ssa_inverse: PARTIAL -- the exact-position lemma and the id-list invariant above are
+   proved for all inputs; their assembly into "ssa_to_linear (linear_to_ssa p) = p up to the
+   order inside a step, for every valid path" is certified per run by inverse_ok_b on
+   generated general paths (unary, pairwise, n-ary, unsorted steps), not proved *)
+Theorem C10_linear_ssa_inverse_checker_partial : forall path N, inverse_ok_b path N = true ->
+  ssa_to_linear (linear_to_ssa path N) N = map sort_asc path.
+Proof. exact inverse_ok_b_sound. Qed.
+Print Assumptions C10_linear_ssa_inverse_checker_partial.
+
 (* non-vacuity: a 5-leaf tree; an order with ties; all conversions agree *)
 Example C10_nonvacuous :
   let t := Node (Node (Node (Leaf 0) (Leaf 3)) (Leaf 1)) (Node (Leaf 2) (Leaf 4)) in
